@@ -189,6 +189,15 @@ func vC04(s vSeqSpec) {
 	got, okg := vRawTokens(x)
 	vAssert(okg, "seq: the re-encoded document tokenises")
 	vAssert(vSameToks(got, want), "seq: decode then encode reproduces the token stream (names, order, attributes, text, comments, instructions)")
+	if form < 2 {
+		var y []byte
+		if form == 0 {
+			y, _ = ms.Xml()
+		} else {
+			y, _ = ms.XmlIndent("", "  ")
+		}
+		vAssert(string(y) == string(x), "seq: encoding the same MapSeq again reproduces the same document")
+	}
 	switch form {
 	case 0:
 		vCover("compact")
